@@ -43,6 +43,15 @@ Proofs/Sort.vos Proofs/Sort.vok Proofs/Sort.required_vos: Proofs/Sort.v Base/Bas
 Proofs/Equality.vo Proofs/Equality.glob Proofs/Equality.v.beautified Proofs/Equality.required_vo: Proofs/Equality.v Base/Base.vo Model/Reader.vo Model/Printer.vo Model/Store.vo Model/Eval.vo
 Proofs/Equality.vio: Proofs/Equality.v Base/Base.vio Model/Reader.vio Model/Printer.vio Model/Store.vio Model/Eval.vio
 Proofs/Equality.vos Proofs/Equality.vok Proofs/Equality.required_vos: Proofs/Equality.v Base/Base.vos Model/Reader.vos Model/Printer.vos Model/Store.vos Model/Eval.vos
+Proofs/Calls.vo Proofs/Calls.glob Proofs/Calls.v.beautified Proofs/Calls.required_vo: Proofs/Calls.v Base/Base.vo Model/Reader.vo Model/Printer.vo Model/Store.vo Model/Eval.vo
+Proofs/Calls.vio: Proofs/Calls.v Base/Base.vio Model/Reader.vio Model/Printer.vio Model/Store.vio Model/Eval.vio
+Proofs/Calls.vos Proofs/Calls.vok Proofs/Calls.required_vos: Proofs/Calls.v Base/Base.vos Model/Reader.vos Model/Printer.vos Model/Store.vos Model/Eval.vos
+Proofs/Contexts.vo Proofs/Contexts.glob Proofs/Contexts.v.beautified Proofs/Contexts.required_vo: Proofs/Contexts.v Base/Base.vo Model/Reader.vo Model/Printer.vo Model/Store.vo Model/Eval.vo Model/Init.vo
+Proofs/Contexts.vio: Proofs/Contexts.v Base/Base.vio Model/Reader.vio Model/Printer.vio Model/Store.vio Model/Eval.vio Model/Init.vio
+Proofs/Contexts.vos Proofs/Contexts.vok Proofs/Contexts.required_vos: Proofs/Contexts.v Base/Base.vos Model/Reader.vos Model/Printer.vos Model/Store.vos Model/Eval.vos Model/Init.vos
+Props/C02.vo Props/C02.glob Props/C02.v.beautified Props/C02.required_vo: Props/C02.v Base/Base.vo Model/Reader.vo Model/Printer.vo Model/Store.vo Model/Eval.vo Model/Init.vo Proofs/Calls.vo
+Props/C02.vio: Props/C02.v Base/Base.vio Model/Reader.vio Model/Printer.vio Model/Store.vio Model/Eval.vio Model/Init.vio Proofs/Calls.vio
+Props/C02.vos Props/C02.vok Props/C02.required_vos: Props/C02.v Base/Base.vos Model/Reader.vos Model/Printer.vos Model/Store.vos Model/Eval.vos Model/Init.vos Proofs/Calls.vos
 Props/C03.vo Props/C03.glob Props/C03.v.beautified Props/C03.required_vo: Props/C03.v Base/Base.vo Model/Reader.vo Model/Printer.vo Model/Store.vo Model/Eval.vo Model/Init.vo Proofs/EvalRel.vo
 Props/C03.vio: Props/C03.v Base/Base.vio Model/Reader.vio Model/Printer.vio Model/Store.vio Model/Eval.vio Model/Init.vio Proofs/EvalRel.vio
 Props/C03.vos Props/C03.vok Props/C03.required_vos: Props/C03.v Base/Base.vos Model/Reader.vos Model/Printer.vos Model/Store.vos Model/Eval.vos Model/Init.vos Proofs/EvalRel.vos
@@ -67,3 +76,6 @@ Props/C15.vos Props/C15.vok Props/C15.required_vos: Props/C15.v Base/Base.vos Mo
 Props/C17.vo Props/C17.glob Props/C17.v.beautified Props/C17.required_vo: Props/C17.v Base/Base.vo Model/Reader.vo Model/Printer.vo Model/Store.vo Model/Eval.vo Model/Init.vo Proofs/Sort.vo
 Props/C17.vio: Props/C17.v Base/Base.vio Model/Reader.vio Model/Printer.vio Model/Store.vio Model/Eval.vio Model/Init.vio Proofs/Sort.vio
 Props/C17.vos Props/C17.vok Props/C17.required_vos: Props/C17.v Base/Base.vos Model/Reader.vos Model/Printer.vos Model/Store.vos Model/Eval.vos Model/Init.vos Proofs/Sort.vos
+Props/C19.vo Props/C19.glob Props/C19.v.beautified Props/C19.required_vo: Props/C19.v Base/Base.vo Model/Reader.vo Model/Printer.vo Model/Store.vo Model/Eval.vo Model/Init.vo Proofs/Contexts.vo
+Props/C19.vio: Props/C19.v Base/Base.vio Model/Reader.vio Model/Printer.vio Model/Store.vio Model/Eval.vio Model/Init.vio Proofs/Contexts.vio
+Props/C19.vos Props/C19.vok Props/C19.required_vos: Props/C19.v Base/Base.vos Model/Reader.vos Model/Printer.vos Model/Store.vos Model/Eval.vos Model/Init.vos Proofs/Contexts.vos
